@@ -69,6 +69,26 @@ def fix_6(r):
 """)
 
 
+    # the SRv6 SID NLRI (type 6) dropped the route distinguisher altogether
+    sub(r, N + 'bgpls/srv6sid.py', """        # Store complete wire format including header
+        return cls(data)
+""", """        # Store complete wire format including header
+        instance = cls(data)
+        instance.route_d = rd if rd is not None else RouteDistinguisher.NORD
+        return instance
+""")
+    sub(r, N + 'bgpls/srv6sid.py', """        # Direct _packed comparison - CODE, proto_id, domain, TLVs all encoded in wire format
+        return self._packed == other._packed
+""", """        # Direct _packed comparison - CODE, proto_id, domain, TLVs all encoded in wire format
+        return self._packed == other._packed and getattr(self, 'route_d', None) == getattr(other, 'route_d', None)
+""")
+    sub(r, N + 'bgpls/srv6sid.py', """        # Direct _packed hash - all wire fields encoded in bytes
+        return hash(self._packed)
+""", """        # Direct _packed hash - all wire fields encoded in bytes
+        return hash((self._packed, getattr(self, 'route_d', None)))
+""")
+
+
 def fix_7(r):
     sub(r, N + 'label.py', """        # _packed includes everything; use _has_addpath as discriminator
         if self._has_addpath:
